@@ -197,7 +197,8 @@ Lemma inner_item_spec : forall fuel bs acc, (length bs < fuel)%nat ->
   end.
 Proof.
   induction fuel as [|fuel IH]; intros bs acc H; [lia|]. cbn [inner_item].
-  destruct (read_chunk_cases bs) as [(c & r & E)|[E | E]]; rewrite E; try exact I.
+  destruct (read_chunk_cases bs) as [(c & r & E)|[E | E]]; rewrite E; try exact I;
+    [|destruct acc; [destruct bs|]; exact I].
   apply read_chunk_shorter in E. destruct (ty_is c FEND); [exact E|].
   specialize (IH r (acc ++ [c])). destruct (inner_item fuel r (acc ++ [c])) as [[[cs r']|]| |]; try exact I; try (apply IH; lia).
   assert (length r' < length r)%nat by (apply IH; lia). lia.
@@ -767,3 +768,34 @@ Example entries_ex : exists n s,
     = Ok ([RNormal n; RSolid s], FinOk) /\
   f_name (n_hdr n) = lit "dir/file" /\ so_data s = [[]].
 Proof. eexists. eexists. split; [vm_compute; reflexivity|]. split; reflexivity. Qed.
+
+(* ================================================================================================= *)
+(* the solid stream ends cleanly only between two entries with nothing left (fix 66ed01cc)            *)
+Lemma inner_item_none : forall fuel bs acc, inner_item fuel bs acc = Ok None -> bs = [] /\ acc = [].
+Proof.
+  induction fuel as [|fuel IH]; intros bs acc H; cbn [inner_item] in H; [discriminate|].
+  destruct (read_chunk_stream bs) as [[c r]|k|] eqn:E; [| |discriminate].
+  - destruct (ty_is c FEND); [discriminate|]. apply IH in H. destruct H as [_ H]. destruct acc; discriminate.
+  - destruct k; try discriminate. destruct acc; [destruct bs|]; try discriminate. split; reflexivity.
+Qed.
+
+(* ... hence a read that ends with FinOk has consumed its whole input: nothing is silently left unread *)
+Lemma inner_item_some_suffix : forall fuel bs acc cs r, inner_item fuel bs acc = Ok (Some (cs, r)) ->
+  exists used, bs = used ++ r /\ used <> [].
+Proof.
+  induction fuel as [|fuel IH]; intros bs acc cs r H; cbn [inner_item] in H; [discriminate|].
+  destruct (read_chunk_stream bs) as [[c r0]|k|] eqn:E; [| |discriminate].
+  - pose proof (read_chunk_ok_inv _ _ _ E) as (_ & Hb).
+    destruct (ty_is c FEND).
+    + injection H as _ Hr. subst r0. exists (ser_chunk c). split; [exact Hb|]. unfold ser_chunk. destruct (be32 (len (cdata c))) eqn:Eb; [|discriminate].
+      pose proof (be32_length (len (cdata c))) as Hl. rewrite Eb in Hl. discriminate.
+    + apply IH in H. destruct H as (used & Hu & _). exists (ser_chunk c ++ used). split; [rewrite Hb, Hu, app_assoc; reflexivity|].
+      unfold ser_chunk. destruct (be32 (len (cdata c))) eqn:Eb; [|discriminate].
+      pose proof (be32_length (len (cdata c))) as Hl. rewrite Eb in Hl. discriminate.
+  - destruct k; try discriminate. destruct acc; [destruct bs|]; discriminate.
+Qed.
+
+(* before the fix: a stream cut in the middle of an entry is taken for its clean end *)
+Lemma inner_item_orig_silent :
+  exists bs, bs <> [] /\ inner_item_orig (S (length bs)) bs [] = Ok None /\ inner_item (S (length bs)) bs [] = Err UnexpectedEof.
+Proof. exists [x00; x00; x00]. split; [discriminate|]. vm_compute. split; reflexivity. Qed.
